@@ -90,7 +90,14 @@ def gen_texts(rnd, n, for_regex=False):
 
 def gen_case(rnd):
     kind = rnd.choice(["level", "dup", "regexp", "seq", "fluent-level", "fluent-dup", "fluent-regexp", "fluent-seq",
-                       "regexpq", "seqdefault", "dup", "seq"])
+                       "regexpq", "seqdefault", "dup", "seq", "seqtree"])
+    if kind == "seqtree":
+        # counters that meet a message already carrying their attribute: two counters of the same name (outer + nested behind a
+        # level filter), one instance placed in the outer and in a nested pipeline, attribute preset by the caller
+        n = rnd.randint(1, 30)
+        param = "%d:%d:%d" % (rnd.randrange(3), rnd.randrange(5), rnd.randrange(2))
+        texts = gen_texts(rnd, n)
+        return kind, param, 1, [(0, rnd.randrange(5), t) for t in texts]
     base = kind.replace("fluent-", "")
     npipes = 1 if kind.startswith("fluent") else rnd.choice([1, 1, 2, 3])
     n = rnd.randint(1, 400) if rnd.random() < 0.15 else rnd.randint(1, 40)
@@ -125,6 +132,27 @@ def expected(c):
         return [str(v) for v in ref_dup(seq)]
     if base in ("regexp", "regexpq"):
         return [str(v) for v in ref_regexp(param, seq)]
+    if base == "seqtree":
+        variant, level, scoped = (int(x) for x in param.split(":"))
+        out = []
+        nb = 0
+        shared = 0
+        for i, (_, t, _) in enumerate(seq):
+            if variant == 0:
+                # outer counter numbers every message; the nested one numbers those the level filter lets through; the nested
+                # pipeline built by pipeline() is scoped, so the outer sink sees the outer number again
+                if t >= level:
+                    out.append("b1:%da1:%d" % (nb, i))
+                    nb += 1
+                else:
+                    out.append("b0a1:%d" % i)
+            elif variant == 1:
+                first, second = shared, shared + 1
+                shared += 2
+                out.append("b1:%da1:%d" % (second, first if scoped else second))
+            else:
+                out.append("b0a1:%d" % i)
+        return out
     # seq / seqdefault: k-th call returns k-1 (the sink always sees it)
     return ["1:%d" % k for k in range(len(seq))]
 
@@ -165,7 +193,7 @@ def run(ctx):
                              c[3][j - 1][2] if j else None),
                           {"kind": c[0], "param": c[1], "npipes": c[2], "seq": c[3][:j + 1]})
         passed = sum(1 for e in exp if e[0] == "1")
-        nontrivial = len(exp) >= 3 and (c[0].endswith("seq") or c[0] == "seqdefault" or 0 < passed < len(exp))
+        nontrivial = len(exp) >= 3 and (c[0].endswith("seq") or c[0] in ("seqdefault", "seqtree") or 0 < passed < len(exp))
         if nontrivial:
             distinct.add((c[0], c[1], c[2], tuple(exp)))
         if len(samples) < 4 and nontrivial and i % 211 == 0:
@@ -176,7 +204,8 @@ def run(ctx):
         "distinct_nontrivial": len(distinct),
         "rule": "sequences of 1..400 messages (runs, alternations, null/empty texts, case/whitespace/NFC-NFD variants, all types) "
                 "fed to LevelFilter / DuplicateFilter / RegExpFilter / SeqNumberAttr, directly, through the fluent API, and with one "
-                "instance shared by 2-3 pipelines fed alternately; verdict vector compared with reference automata; non-trivial = "
+                "instance shared by 2-3 pipelines fed alternately, and counters inside trees where the message already carries the counter's "
+                "attribute (same-named outer + nested counters, one instance in outer and nested pipeline, attribute preset by the caller); verdict vector compared with reference automata; non-trivial = "
                 ">= 3 messages and (for filters) both verdicts occur; distinct by (kind, parameter, sharing, verdict vector)",
         "samples": samples or [{"kind": cases[0][0]}],
         "messages": msgs, "cases_by_kind": kinds,
